@@ -45,6 +45,11 @@ func add(rootGoitPath, path string, index *store.Index) error {
 		return nil
 	}
 
+	// the blob has to be stored before the index refers to it
+	if err := object.Write(rootGoitPath); err != nil {
+		return fmt.Errorf("fail to write object: %w", err)
+	}
+
 	// update index
 	isUpdated, err := index.Update(rootGoitPath, object.Hash, byteRelPath)
 	if err != nil {
